@@ -246,8 +246,13 @@ def _check_numbering(record, length: int) -> None:
                                                     "children": "protoclusters"})
 
 
-def _check_links(record, genes: dict, regions_complete: bool) -> None:
-    """ genes: name -> location spec of every CDS in the record """
+def _check_links(record, genes: dict, regions_complete: bool, former_candidates: dict = None) -> list:
+    """ genes: name -> location spec of every CDS in the record;
+        former_candidates: id -> candidate cluster for every candidate that has been in the record (updated here).
+        Returns labels of things seen but not judged. """
+    labels = []
+    if former_candidates is None:
+        former_candidates = {}
     protos = record.get_protoclusters()
     cands = record.get_candidate_clusters()
     subs = record.get_subregions()
@@ -256,11 +261,19 @@ def _check_links(record, genes: dict, regions_complete: bool) -> None:
     cand_ids = {id(x) for x in cands}
     region_ids = {id(x) for x in regions}
     sub_ids = {id(x) for x in subs}
+    for cand in cands:
+        former_candidates[id(cand)] = cand
     for proto in protos:
         parent = proto.parent
-        if parent is not None and (id(parent) not in cand_ids or all(p is not proto for p in parent.protoclusters)):
+        if parent is not None and id(parent) not in cand_ids:
+            if former_candidates.get(id(parent)) is parent or not cands:
+                raise Violation("stale_parent", {"child": "protocluster", "location": _plain(_loc(proto)),
+                                                 "parent": str(parent), "parent_was_in_record_before": bool(cands)})
+            # a candidate that candidate formation built and then discarded: how candidates are formed is C05
+            labels.append("unjudged_protocluster_parent_is_a_discarded_candidate")
+        elif parent is not None and all(p is not proto for p in parent.protoclusters):
             raise Violation("stale_parent", {"child": "protocluster", "location": _plain(_loc(proto)),
-                                             "parent": str(parent), "parent_in_record": id(parent) in cand_ids})
+                                             "parent": str(parent), "problem": "parent does not list the child"})
         if proto.parent_record is not record:
             raise Violation("stale_parent", {"child": "protocluster", "parent_record": "not this record"})
     for cand in cands:
@@ -289,7 +302,7 @@ def _check_links(record, genes: dict, regions_complete: bool) -> None:
                 raise Violation("stale_child", {"parent": "region", "location": _plain(_loc(region)),
                                                 "child": _plain(_loc(sub)), "kind": "subregion"})
     if not genes:
-        return
+        return labels
     region_locs = [_loc(region) for region in regions]
     for cds in record.get_cds_features():
         gene_loc = genes[cds.get_name()]
@@ -306,6 +319,7 @@ def _check_links(record, genes: dict, regions_complete: bool) -> None:
         want = sorted(name for name, gene_loc in genes.items() if ring.contains(loc, gene_loc))
         if got != want:
             raise Violation("region_genes", {"region": _plain(loc), "got": got, "want": want})
+    return labels
 
 
 def _summary(record) -> dict:
@@ -446,7 +460,8 @@ def _check_layout(spec: dict) -> dict:
     if returned != facts["components"]:
         raise Violation("region_count", dict(info(), returned=returned, components=facts["components"]))
     _check_numbering(record, length)
-    _check_links(record, {}, True)
+    former: dict = {}
+    unjudged = set(_check_links(record, {}, True, former))
     first = _summary(record)
 
     # clearing and re-creating
@@ -455,7 +470,7 @@ def _check_layout(spec: dict) -> dict:
         _run("clear_total", record.clear_regions, info)
         if record.get_regions():
             raise Violation("clear_regions_left_regions", info())
-        _check_links(record, {}, False)
+        _check_links(record, {}, False, former)
         for area in list(record.get_candidate_clusters()) + list(record.get_subregions()):
             if area.parent is not None:
                 raise Violation("stale_parent", {"child": "area after clear_regions", "location": _plain(_loc(area))})
@@ -473,7 +488,7 @@ def _check_layout(spec: dict) -> dict:
             raise Violation("clear_left_features", dict(info(), op=after))
         _check_regions(record, length, circular, after)
     _check_numbering(record, length)
-    _check_links(record, {}, True)
+    unjudged.update(_check_links(record, {}, True, former))
 
     if spec.get("manual") is not None:
         _check_manual_regions(spec, spec["manual"])
@@ -486,6 +501,7 @@ def _check_layout(spec: dict) -> dict:
             classes.append(f"has_{key}")
     if n_areas != len(spec["areas"]):
         classes.append("candidates_differ_from_protoclusters")
+    classes.extend(sorted(unjudged))
     nontrivial = (facts["areas"] >= 3 and facts["components"] >= 2 and facts["multi"] >= 1) or facts["crossing"]
     return {"nontrivial": nontrivial, "classes": classes}
 
@@ -517,6 +533,7 @@ class History:
         self.recreated = False
         self.applied = 0
         self.max_components = 0
+        self.former_candidates: dict = {}
 
     def _info(self, op: str):
         return lambda: dict(_area_snapshot(self.record, self.length, self.circular), op=op)
@@ -624,7 +641,7 @@ class History:
                     self.labels.add(f"regions_{key}")
             if facts["components"] >= 2 and facts["multi"]:
                 self.labels.add("regions_several_components")
-        _check_links(record, self.genes, complete)
+        self.labels.update(_check_links(record, self.genes, complete, self.former_candidates))
         if complete and op in ("create_regions",) + CLEARS and (self.cands_complete or not self.have_cands):
             self._compare_with_fresh(op)
 
